@@ -74,6 +74,38 @@ func (c *c08Run) unmarkCommutes(v cty.Value, t cty.Type, out c08Out) {
 	}
 }
 
+// conformingIdentity: "a value that already conforms to the requested type converts to itself"
+// (`C08.ConformingConvertsToItself`), for targets with placeholders and without optional attributes
+// (an absent optional attribute conforms but is added as a null)
+func (c *c08Run) conformingIdentity(v cty.Value, t cty.Type, out c08Out) {
+	if !t.HasDynamicTypes() || c08HasOpt(t) || v.Type().Equals(t) || len(v.Type().TestConformance(t)) > 0 {
+		return
+	}
+	if !v.IsWhollyKnown() {
+		// an unknown converts to an unknown that admits it but may be less refined (a set's length
+		// lower bound is clamped to 1 whatever the element conversion): the clause is about known values
+		return
+	}
+	ctx := c.ctx
+	ctx.Eval("conforming-identity "+encVal(v)+" "+encTy(t), true)
+	ctx.Tag("d08b:conforming:" + out.kind)
+	sig := ""
+	switch {
+	case out.kind == "err":
+		sig = "fails:" + c08Kind(v.Type())
+	case out.kind == "ok" && !c08Same(out.v, v):
+		sig = "changes:" + c08Kind(v.Type())
+	default:
+		return
+	}
+	if c08HasEmptyColl(v) {
+		sig = "empty-collection-keeps-nested-placeholder"
+	} else if c08HasUnknownLengthSet(v) {
+		sig = "set-unknown-length-keeps-nested-placeholder"
+	}
+	c.fail("conforming_identity", sig, "a value that conforms to the requested type does not convert to itself", v, t, c08Outcome(out))
+}
+
 // c08MarkDensely marks nodes of v with probability 1/2 (sets are rebuilt by SetVal, which moves
 // the marks of members up to the set, as the API always does)
 func c08MarkDensely(c *c08Run, v cty.Value) cty.Value {
